@@ -199,6 +199,24 @@ theorem uvSphere_volume_bounds {rows cols : Nat} {r : ℝ} (hr : 0 < r) (hR : 2 
       volume6 (uvSpherePos r rows cols) (uvSphereTris rows cols) / 6 :=
   uvSphere_volume_bounds_aux hr hR hC
 
+/-- **hemisphere**: the enclosed volume in closed form,
+    `(cols·r³/6)·sin(2π/cols)·(sin²(π/rows) + cos(π/rows)·(1 + cos(π/(2·rows))))`, for all `rows ≥ 2`, `cols ≥ 3`
+    (the rings are `π/(2·rows)` apart, the last ring is `π/rows` from the pole) -/
+theorem hemisphere_volume {rows cols : Nat} (r : ℝ) (hR : 2 ≤ rows) (hC : 3 ≤ cols) :
+    volume6 (hemispherePos r rows cols) (hemisphereTris rows cols) / 6 =
+      (cols : ℝ) * r ^ 3 / 6 * Real.sin (2 * Real.pi / cols) *
+        (Real.sin (Real.pi / rows) ^ 2 + Real.cos (Real.pi / rows) * (1 + Real.cos (Real.pi / (2 * rows)))) := by
+  rw [hemisphere_volume_aux r hR hC]; ring
+
+/-- … which is at most the analytic volume `2/3·π·r³` and approaches it: relative deficit
+    `≤ 2π²/(3·cols²) + 5π²/(16·rows²)` -/
+theorem hemisphere_volume_bounds {rows cols : Nat} {r : ℝ} (hr : 0 < r) (hR : 2 ≤ rows) (hC : 3 ≤ cols) :
+    volume6 (hemispherePos r rows cols) (hemisphereTris rows cols) / 6 ≤ 2 / 3 * Real.pi * r ^ 3 ∧
+    2 / 3 * Real.pi * r ^ 3 *
+        (1 - 2 * Real.pi ^ 2 / (3 * (cols : ℝ) ^ 2) - 5 * Real.pi ^ 2 / (16 * (rows : ℝ) ^ 2)) ≤
+      volume6 (hemispherePos r rows cols) (hemisphereTris rows cols) / 6 :=
+  hemisphere_volume_bounds_aux hr hR hC
+
 /-- the unwelded sphere encloses the same volume as the welded one -/
 theorem uvSphereUnwelded_volume {rows cols : Nat} (r : ℝ) (hR : 2 ≤ rows) (hC : 3 ≤ cols) :
     volume6 (uvUnweldedPos r rows cols) (uvSphereUnweldedTris rows cols) / 6 =
